@@ -132,6 +132,44 @@ def strip_oracle(text, big, d):
     return None
 
 
+def disassembly_oracle(text, big, d):
+    """The disassembly of the emitted code re-assembles to the same words."""
+    flags = ["--no-color"] + (["--big-stack"] if big else [])
+    path = os.path.join(d, "c.hera")
+    with open(path, "w") as f:
+        f.write(text)
+    code, out, err, _ = real_main(["assemble", "--code", "--stdout"] + flags + [path])
+    if code != 0:
+        return None
+    words = [w for w in out.split() if w]
+    cpath = os.path.join(d, "c.lcode")
+    with open(cpath, "w") as f:
+        f.write("\n".join(words) + "\n")
+    code2, out2, err2, _ = real_main(["disassemble", "--no-color", cpath])
+    if code2 != 0:
+        return "`hera disassemble` fails (status {}) on the code that `hera assemble` emitted: {}".format(code2, err2[:100])
+    rpath = os.path.join(d, "r.hera")
+    with open(rpath, "w") as f:
+        f.write(out2)
+    code3, out3, err3, _ = real_main(["assemble", "--code", "--stdout", "--no-color", rpath])
+    words3 = [w for w in out3.split() if w]
+    if code3 != 0 or words3 != words:
+        k = next((i for i, (a, b) in enumerate(zip(words, words3)) if a != b), min(len(words), len(words3)))
+        return ("the disassembly of the emitted code does not re-assemble to the same words (status {}, word {}: {} -> {!r} -> {})".format(
+            code3, k, words[k] if k < len(words) else None, (out2.split("\n") + [""] * (k + 1))[k][:40], words3[k] if k < len(words3) else None))
+    return None
+
+
+def wide_offset_programs():
+    """LOAD / STORE with every offset 0..31 (the fifth offset bit sits in the opcode nibble), FON / FOFF / FSET5 with bit 4,
+    INC / DEC at both ends"""
+    out = []
+    for o in range(0, 32, 3):
+        out.append("SET(R1, 0x4000)\nSET(R2, {0})\nSTORE(R2, {0}, R1)\nLOAD(R3, {0}, R1)\nSTORE(R3, {1}, R1)\nLOAD(R4, {1}, R1)\nHALT()\n".format(o, 31 - o))
+    out.append("FON(31)\nFOFF(16)\nFSET5(21)\nFSET4(15)\nINC(R1, 64)\nDEC(R1, 1)\nINC(R2, 1)\nDEC(R2, 64)\nHALT()\n")
+    return out
+
+
 def debug_runs():
     """runs of 1-4 adjacent debugging operations (the print-a-label-then-a-register idiom) before, inside and after loops
     and forward skips that use relative branches to labels, register branches, CALL and SET of labels"""
@@ -152,10 +190,10 @@ def check(seed, n):
     seen = set()
     d = scratch_dir()
     try:
-        planned = debug_runs()
+        planned = debug_runs() + wide_offset_programs()
         for k in range(n + len(planned)):
             if k < len(planned):
-                text, fs = planned[k], ["debug-runs"]
+                text, fs = planned[k], ["planned"]
             else:
                 text, fs = proggen.generate(seed * 5003 + k, wild=False, debug_ops=(k % 2 == 0), strings_wide=(k % 5 == 0))
             big = k % 4 == 1
@@ -177,6 +215,9 @@ def check(seed, n):
             sp = strip_oracle(text, big, d)
             if sp:
                 violations.append({"property": "C06", "stream": "asmrun", "sig": "strip", "case": case, "what": sp})
+            dp = disassembly_oracle(text, big, d)
+            if dp:
+                violations.append({"property": "C06", "stream": "asmrun", "sig": "disassembly", "case": case, "what": dp})
     finally:
         shutil.rmtree(d, ignore_errors=True)
     return {"evaluations": evals, "violations": violations, "disagreements": [], "distribution": feats, "distinct": len(seen)}
